@@ -580,7 +580,7 @@ Proof.
       injection H as <- <- <- <-.
       apply (final_slices x wsort k Hk Hn true N); [|lia|exact HFin].
       rewrite HC. replace (k <? n) with false by nia. rewrite andb_false_r. reflexivity.
-    + pose proof (final_merged x wsort k Hk Hn h0 rev0 Hch rev1 low1 high1 ltac:(fold n; fold N; lia) ltac:(fold n; fold N; lia) HFin) as HM.
+    + pose proof (final_merged x wsort k Hk Hn h0 rev1 low1 high1 ltac:(fold n; fold N; lia) ltac:(fold n; fold N; lia) HFin) as HM.
       rewrite H in HM. fold n in HM. fold N in HM.
       apply (final_slices x wsort k Hk Hn true (N - 1)); [|lia|exact HM].
       rewrite HC. replace (k <? n) with true by nia.
